@@ -36,6 +36,9 @@ func decodeInto(ctx context.Context, dest *map[string]interface{}, in io.Reader)
 	if err := dec.Decode(&intermediate); err != nil {
 		return wrapError(StatusBadRequest, err)
 	}
+	if err := stringKeysOnly(intermediate); err != nil {
+		return wrapError(StatusBadRequest, err)
+	}
 	if err := mergo.Merge(dest, intermediate, mergo.WithOverride); err != nil {
 		return wrapError(StatusUnprocessableEntity, err)
 	}
@@ -152,6 +155,9 @@ func parseSets(opts *ParseOptions) (map[string]interface{}, error) {
 		if err := yaml.Unmarshal([]byte(v), &parsed); err != nil {
 			return nil, wrapError(StatusUnprocessableEntity, err)
 		}
+		if err := stringKeysOnly(parsed); err != nil {
+			return nil, wrapError(StatusUnprocessableEntity, err)
+		}
 		if err := setValue(&values, k, parsed); err != nil {
 			return nil, wrapError(StatusUnprocessableEntity, err)
 		}
@@ -186,11 +192,39 @@ func parseSets(opts *ParseOptions) (map[string]interface{}, error) {
 		if err := dec.Decode(&val); err != nil {
 			return nil, err
 		}
+		if err := stringKeysOnly(val); err != nil {
+			return nil, wrapError(StatusUnprocessableEntity, err)
+		}
 		if err := setValue(&values, k, val); err != nil {
 			return nil, err
 		}
 	}
 	return values, nil
+}
+
+// stringKeysOnly rejects YAML mappings whose keys are not strings: they have
+// no JSON form, and merging one over a mapping with string keys makes mergo
+// panic.
+func stringKeysOnly(v interface{}) error {
+	switch t := v.(type) {
+	case map[string]interface{}:
+		for _, e := range t {
+			if err := stringKeysOnly(e); err != nil {
+				return err
+			}
+		}
+	case map[interface{}]interface{}:
+		for k := range t {
+			return fmt.Errorf("mapping key %v is not a string", k)
+		}
+	case []interface{}:
+		for _, e := range t {
+			if err := stringKeysOnly(e); err != nil {
+				return err
+			}
+		}
+	}
+	return nil
 }
 
 func setValue(values *map[string]interface{}, key string, value interface{}) error {
